@@ -142,9 +142,9 @@ func specCutNul(s string) string { return s[:specIndexNul(s, 0)] }
 //@   ensures result >= -1 && result+len(substr) <= len(s)
 //@   ensures substr == "\x00" ==> result == ite(specIndexNul(s, 0) == len(s), -1, specIndexNul(s, 0))
 
-// specAcceptV4: RFC 2131 -- 236-byte BOOTP header, magic cookie 99.130.83.99, then a well-formed options area that is
+// SpecAcceptV4: RFC 2131 -- 236-byte BOOTP header, magic cookie 99.130.83.99, then a well-formed options area that is
 // empty or terminated by End.
-func specAcceptV4(s string) bool {
+func SpecAcceptV4(s string) bool {
 	return len(s) >= 240 && s[236] == 99 && s[237] == 130 && s[238] == 83 && s[239] == 99 && specOptsOK(s[240:], 0, true)
 }
 
@@ -158,7 +158,7 @@ func specMin(a int, b int) int {
 //@ contract FromBytes
 //@   let s0 = string(q)
 //@   let opts0 = string(q[240:])
-//@   ensures[accept] (err == nil) == specAcceptV4(s0)
+//@   ensures[accept] (err == nil) == SpecAcceptV4(s0)
 //@   ensures[result] (err == nil) == (result0 != nil)
 //@   ensures[fresh] fresh(result0)
 //@   ensures[op-htype-hops] err == nil ==> int(result0.OpCode) == int(s0[0]) && int(result0.HWType) == int(s0[1]) && int(result0.HopCount) == int(s0[3])
@@ -522,6 +522,9 @@ func specVIVCOK(a string, p int) bool {
 	return specVIVCOK(a, p+5+int(a[p+4]))
 }
 
+// grownInPlace(s, s0): s is s0 extended within its capacity, or a reallocated (fresh) slice
+//@ define grownInPlace(s, s0) = (fresh(s) || (ref(s) == ref(s0) && off(s) == off(s0) && cap(s) == cap(s0) && len(s) >= len(s0)))
+
 //@ contract (*VIVCIdentifiers).FromBytes
 //@   let a0 = string(data)
 //@   requires ref(*ids) != ref(ids) && ref(*ids) != ref(data)
@@ -529,7 +532,7 @@ func specVIVCOK(a string, p int) bool {
 //@   ensures[accept] (err == nil) == specVIVCOK(a0, 0)
 //@   loop 0 invariant[pos] ref(buf.Buffer.data) == ref(data) && optPos(buf, data) >= 0 && optPos(buf, data) <= len(data) && len(buf.Buffer.data) == len(data) - optPos(buf, data)
 //@   loop 0 invariant[input] string(data) == a0 && ref(ids) != ref(buf) && ref(ids) != ref(buf.Buffer)
-//@   loop 0 invariant[list] (ref(*ids) == old(ref(*ids)) || fresh(*ids)) && (*ids == nil || allocated(*ids)) && ref(*ids) != ref(buf) && ref(*ids) != ref(buf.Buffer) && ref(*ids) != ref(ids) && off(*ids) >= 0 && len(*ids) <= cap(*ids) && len(*ids) >= 0
+//@   loop 0 invariant[list] grownInPlace(*ids, old(*ids)) && (*ids == nil || allocated(*ids)) && ref(*ids) != ref(buf) && ref(*ids) != ref(buf.Buffer) && ref(*ids) != ref(ids) && off(*ids) >= 0 && len(*ids) <= cap(*ids) && len(*ids) >= 0
 //@   loop 0 invariant[work-ok] buf.err == nil ==> specVIVCOK(a0, 0) == specVIVCOK(a0, optPos(buf, data))
 //@   loop 0 invariant[sticky] buf.err != nil ==> !specVIVCOK(a0, 0)
 
@@ -540,7 +543,7 @@ func specVIVCOK(a string, p int) bool {
 //@   ensures[accept] (err == nil) == specRoutesOK(a0, 0)
 //@   loop 0 invariant[pos] ref(buf.Buffer.data) == ref(p) && optPos(buf, p) >= 0 && optPos(buf, p) <= len(p) && len(buf.Buffer.data) == len(p) - optPos(buf, p) && buf.err == nil
 //@   loop 0 invariant[input] string(p) == a0 && ref(r) != ref(buf) && ref(r) != ref(buf.Buffer)
-//@   loop 0 invariant[list] (ref(*r) == old(ref(*r)) || fresh(*r)) && (*r == nil || allocated(*r)) && ref(*r) != ref(buf) && ref(*r) != ref(buf.Buffer) && ref(*r) != ref(r) && off(*r) >= 0 && len(*r) <= cap(*r) && len(*r) >= 0
+//@   loop 0 invariant[list] grownInPlace(*r, old(*r)) && (*r == nil || allocated(*r)) && ref(*r) != ref(buf) && ref(*r) != ref(buf.Buffer) && ref(*r) != ref(r) && off(*r) >= 0 && len(*r) <= cap(*r) && len(*r) >= 0
 //@   loop 0 invariant[work-ok] specRoutesOK(a0, 0) == specRoutesOK(a0, optPos(buf, p))
 
 //@ contract (*OptionCodeList).FromBytes
